@@ -148,6 +148,10 @@ theorem minNanoTime_expected : minNanoTimeGen = -9223372036854775806 := by rfl
 
 theorem maxNanoTime_expected : maxNanoTimeGen = 9223372036854775806 := by rfl
 
+/-- `ReadLinesBlockExt`: what is buffered when a read returns no byte becomes a block only at the
+clean end of the stream. -/
+theorem tailHandoverGuard_expected : tailHandoverGuard = ["err == io.EOF", "len(dstBuf) > 0"] := by rfl
+
 /-- `serveWriteV1` reads `db` then `rp` and hands them on in this order, `serveWriteV2` reads
 `bucket`, `serveWrite` reads `precision`. -/
 theorem writeParamNames_expected : writeParamNames = ["db", "rp", "bucket", "precision"] := by rfl
